@@ -4,6 +4,14 @@ import json, os, subprocess, sys
 
 CHECKS = {
  # id: (technique, level text, level note, design_ref)
+ "C01": ("reference-model monitor: single-instruction differential execution against a bit-field-decoded SM83 model (complete enumeration of the finite operand spaces) + lock-step monitor on generated programs",
+         "The real dispatch path executes every defined opcode from enumerated/random states; registers, flags, PC/SP, IME/halt state and memory (work/high RAM on every case, all 64 KiB on sampled cases) are compared with an independent reference. 8-bit ALU, CB, INC/DEC, DAA, 16-bit INC/DEC, ADD SP,e/LD HL,SP+e and POP AF operand spaces are enumerated completely (about 4e7 cases per quick run); other opcodes and whole programs are sampled.",
+         "Trusts the reference SM83 model (cross-checked against daa.csv and the passing blargg/mooneye ROMs); STOP accepted as 1 or 2 bytes; undefined opcodes are never executed here (C11).",
+         "DESIGN.md §4 C01"),
+ "C02": ("black-box sentinel timing measurement of every opcode x flag nibble + lock-step cycle counting on generated programs and the timing ROMs",
+         "Instruction length is measured without the CPU's own boundary notion (cycles until a following sentinel instruction takes effect) for all 501 defined opcodes x 16 flag nibbles, and between boundaries for every retired instruction of generated programs and of blargg instr_timing/mem_timing and the mooneye *_timing ROMs.",
+         "Trusts the documented cycle table of the reference (cross-checked against instruction_metadata.go and the ROMs' own verdicts); HALT/STOP excluded (C05/C01).",
+         "DESIGN.md §4 C02"),
  "C22": ("reference-model monitor over the complete reachable controller state space (BFS), real Controller driven through Mapper FF00",
          "Every transition of the reachable joypad state space (576 states x 272 events) is executed on the real controller and JOYP compared with a 10-line reference under all four select values; exhaustive for the finite space, so the residual risk is the reference itself.",
          "Trusts the reference joypad (held sets, active-low, AND of selected groups) as the reading of the statement.",
